@@ -85,7 +85,7 @@ def run_text(arg):
             fi = slots[e["at"] - 1]
             L = nlines[fi]
             if e["k"] == "mark":
-                var = MARKER_VARIANTS[fam][(e["style"] - 1) % len(MARKER_VARIANTS[fam])]
+                var = MARKER_VARIANTS[fam][(e["style"] - 1 + 3 * L) % len(MARKER_VARIANTS[fam])]  # the line rotates the variants
                 concrete.append(("mark", L, "  " + var))
                 tl.append({"k": "mark", "at": L, "style": e["style"]})
                 marked.append(base[fi][0])
